@@ -104,7 +104,12 @@ def make(rng, name, node=False, with_starts=None, with_ignore=None, with_cons=No
                 cons.append(c)
         if cons:
             kw["subset_constraints" if cyclic else "subpath_constraints"] = cons; info["cons"] = cons
-            if not cyclic and not node and rng.random() < 0.3:
+            r_cov = rng.random()
+            if r_cov < 0.3:
+                # relaxed coverage by number of edges (odd constraint lengths make the product fractional)
+                info["coverage"] = rng.choice([0.5, 0.75, 0.5])
+                kw["subset_constraints_coverage" if cyclic else "subpath_constraints_coverage"] = info["coverage"]
+            elif not cyclic and not node and r_cov < 0.55:
                 # coverage by length: edge lengths on some edges (missing = 1), fraction < 1 or 1
                 for e in G.edges():
                     if rng.random() < 0.7:
